@@ -1020,6 +1020,18 @@ func c10Lemmas(c *Ctx, p *Program) {
 			c.guard(p, "C10.lemma", what, f, GuardSpec{Through: site, ValAssumes: []ValAssume{{Name: "matrix found for the label", Val: latNil, Match: present}}})
 		}
 	}
+	// tkn20: the matrices of a decoded attribute key are column vectors (decapsulation pairs them entry by entry
+	// through addDuals, which panics on anything else, and adds the per-attribute ones, which panics on shapes
+	// that differ)
+	{
+		f := p.Func("abe/cpabe/tkn20/internal/tkn", "AttributesKey", "UnmarshalBinary")
+		for _, m := range []string{"k1", "k2"} {
+			c.guard(p, "C10.lemma", "an attribute key whose "+m+" matrix is not a column vector is rejected", f,
+				GuardSpec{BinAssumes: []BinAssume{binDesc(f, m+".cols != 1", `[^ ]*\.`+m+`\)?\.cols != 1`, latTrue)}})
+		}
+		c.guard(p, "C10.lemma", "an attribute key with a per-attribute matrix that is not a column vector is rejected", f,
+			GuardSpec{BinAssumes: []BinAssume{binDesc(f, "m.cols != 1 (k3 / k3wild)", `[^ ]*(next|range|Next|m|extract)[^ ]*\.cols != 1`, latTrue)}})
+	}
 	// sidh parameter tables
 	for _, pk := range []string{"p434", "p503", "p751"} {
 		e, info := p.varInit("dh/sidh/internal/"+pk, "params")
